@@ -258,6 +258,52 @@ fn run_ticks(server: SocketAddr, n: u32, up: bool, total: usize) -> Result<(Vec<
     }
 }
 
+/// a download held back by a stream window of a few octets must not keep the tunnel's other direction from working (both
+/// directions are polled by one task): the client reads nothing, sends 4 octets up, the destination must see them; then the
+/// client reads and the download arrives whole
+fn run_walk(server: SocketAddr, n: u32, w: u64) -> Result<Vec<String>, String> {
+    let to = Duration::from_secs(10);
+    let mut c = H3Conn::connect(server, &ClientOpts { src_ip: source_ip(n), windows: Some((1 << 20, w)), ..Default::default() }).map_err(|e| format!("handshake: {:?}", e))?;
+    c.body_keep = 4096;
+    let listener = TcpListener::bind("127.0.0.1:0").map_err(|e| e.to_string())?;
+    let target = format!("127.0.0.1:{}", listener.local_addr().unwrap().port());
+    let sid = c.request(&request_headers("CONNECT", &target, &[("user-agent", b"verif-harness")]), false)?;
+    c.hold.insert(sid);
+    // (the response head needs window too: a window below its size leaves the request unanswered until the client reads -
+    //  the client lets the head through by reading nothing but letting quiche process headers)
+    if !c.run_until(to, |c| c.streams.get(&sid).map(|s| !s.heads.is_empty() || s.ended()).unwrap_or(false)) || c.stream(sid).status(0) != 200 {
+        let st = c.stream(sid);
+        return Err(format!("CONNECT not answered 200 with a stream window of {} octets (heads {}, finished={} reset={:?}, connection closed: {})", w, st.heads.len(), st.finished, st.reset, c.is_closed()));
+    }
+    let mut peer = accept(&listener, to)?;
+    let total = 100usize;
+    let data: Vec<u8> = (0..total).map(|k| code(k, 101)).collect();
+    peer.write_all(&data).map_err(|e| e.to_string())?;
+    c.settle(Duration::from_millis(60), Duration::from_secs(2));
+    let mut problems = vec![];
+    if let Err(e) = c.send_data(sid, b"ping", false, Duration::from_secs(3)) { problems.push(format!("the client could not send its upload: {}", e)); }
+    let _ = peer.set_read_timeout(Some(Duration::from_secs(3)));
+    let mut b = [0u8; 16];
+    let mut got = 0;
+    let t0 = Instant::now();
+    while got < 4 && t0.elapsed() < Duration::from_secs(3) {
+        c.linger(Duration::from_millis(20));
+        let _ = peer.set_read_timeout(Some(Duration::from_millis(50)));
+        match peer.read(&mut b[got..]) { Ok(0) => break, Ok(k) => got += k, Err(_) => {} }
+    }
+    if &b[..got] != b"ping" && problems.is_empty() { problems.push(format!("the client's upload did not reach the destination within 3 s while the download waits for {} octets of stream credit ({} octets arrived)", w, got)); }
+    // the client reads: the download arrives whole
+    let t0 = Instant::now();
+    while t0.elapsed() < Duration::from_secs(5) && c.streams[&sid].body_len < total as u64 && !c.streams[&sid].ended() {
+        c.read_body(sid, usize::MAX);
+        c.linger(Duration::from_millis(5));
+    }
+    let s = c.stream(sid);
+    if s.body != data && problems.is_empty() { problems.push(format!("{} of {} downloaded octets arrived after the client started to read (reset {:?})", s.body.len(), total, s.reset)); }
+    c.close();
+    Ok(problems)
+}
+
 static PANICS: Mutex<Vec<String>> = Mutex::new(Vec::new());
 
 fn fnv(seed: u64, key: &str) -> u64 {
@@ -369,6 +415,24 @@ fn main() {
                     let texts: Vec<String> = o.problems.iter().map(|p| p.1.clone()).collect();
                     rep.violation_with(format!("stream-credit:h3:n={}:{}", nt, class), texts.join("; "), || json!({"scenario": desc, "problems": texts, "octets_after_the_scripted_order": o.after_order}));
                 }
+            }
+        }
+    }
+    // ---- stream windows of a few octets (the sink's capacity test at its boundaries)
+    if std::env::args().any(|a| a == "--walk") {
+        let (wlo, whi): (u64, u64) = (arg_or("--walk-from", "44").parse().unwrap(), arg_or("--walk-to", "84").parse().unwrap());
+        for w in wlo..=whi {
+            let desc = json!({"kind": "window-walk", "proto": "h3", "client_stream_window": w});
+            let d2 = desc.clone();
+            watchdog::enter(move || ("stream-credit:h3:hang".into(), "window-walk scenario did not finish".into(), d2));
+            let r = catch(|| run_walk(ep.addr, 700 + w as u32, w)).unwrap_or_else(|p| Err(format!("client panic: {}", p)));
+            watchdog::leave();
+            rep.eval();
+            rep.nontrivial(format!("walk|{}", w));
+            match r {
+                Err(e) => rep.violation_with("stream-credit:h3:walk:setup", e, || desc.clone()),
+                Ok(p) if p.is_empty() => rep.count("window_walk_runs", 1),
+                Ok(p) => rep.violation_with(format!("stream-credit:h3:walk:{}", if p[0].contains("upload") { "other-direction-stalled" } else { "download" }), p.join("; "), || json!({"scenario": desc, "problems": p})),
             }
         }
     }
